@@ -114,7 +114,7 @@ def step (st : St) (ws : List String) : St × String :=
     match st.frames with
     | f :: _ =>
       let h := f.b.hasSystem (unhex name)
-      (st, s!"has={h} contains={h} n={f.b.numSystems} empty={f.b.isEmpty}")
+      (st, s!"has={h} contains={h}")
     | [] => (st, "bad-op")
   | ["debug"] =>
     match st.frames with
